@@ -44,7 +44,10 @@ ASSUMPTIONS = [
 
 KINDS = ['assign', 'echo', 'print', 'none', 'str', 'both', 'for', 'def', 'raise', 'mlit', 'semi', 'comment', 'printblank',
          'semiprint', 'ell', 'skip', 'nw', 'ied', 'forecho', 'if', 'try', 'raise_stmt', 'with', 'echo_after_print_stmt',
-         'echolist', 'echodict', 'echobytes', 'echonone', 'class', 'mlecho', 'raise_called', 'whileecho', 'printml', 'ell_ml']
+         'echolist', 'echodict', 'echobytes', 'echonone', 'class', 'mlecho', 'raise_called', 'whileecho', 'printml', 'ell_ml',
+         'both_falsy', 'echo_falsy', 'print_then_falsy_semi', 'raise_syntax_eval', 'raise_syntax_exec', 'raise_indent_exec',
+         'raise_syntax_compile', 'raise_chained', 'raise_multiline_msg']
+FALSY = ['0', '0.0', 'False', "''", '[]', '{}', '()', "b''", '0j']
 
 
 def example_source(k, c):
@@ -63,6 +66,27 @@ def example_source(k, c):
     elif c == 'both':
         pre = [['def fboth(v):', "    print('in f', v)", '    return v + 2']]
         src = ['fboth({} or {})'.format(t, k)]
+    elif c == 'both_falsy':
+        # prints and returns a falsy, non-None value: the REPL shows the output followed by the value
+        pre = [['def fz(v, r):', "    print('in fz', v)", '    return r']]
+        src = ['fz({} or {}, {})'.format(t, k, FALSY[k % len(FALSY)])]
+    elif c == 'echo_falsy':
+        src = ['({} or {})'.format(t, FALSY[k % len(FALSY)])]
+    elif c == 'print_then_falsy_semi':
+        src = ["print('s{}'); ({} or {})".format(k, t, FALSY[k % len(FALSY)])]
+    elif c == 'raise_syntax_eval':
+        src = ["eval({} or '1 +')".format(t)]
+    elif c == 'raise_syntax_exec':
+        src = ["exec({} or 'def broken(:')".format(t)]
+    elif c == 'raise_indent_exec':
+        src = ["exec({} or 'if 1:\\nx = 1')".format(t)]
+    elif c == 'raise_syntax_compile':
+        src = ["compile({} or 'x = = 1', 'somefile.py', 'exec')".format(t)]
+    elif c == 'raise_chained':
+        src = ['try:', '    {}'.format(t), "    raise KeyError('inner {}')".format(k), 'except KeyError as ex:',
+               "    raise ValueError('outer {}') from ex".format(k)]
+    elif c == 'raise_multiline_msg':
+        src = ["raise ValueError({} or 'line one {}\\nline two')".format(t, k)]
     elif c == 'for':
         src = ['for i in range(2):', '    print(i, {})'.format(t)]
     elif c == 'forecho':
